@@ -338,6 +338,7 @@ class TransparencyOracle:
         self.laws = IdLaws(self._violate, prop)
         self._before = None
         self.stopped = False
+        self.straggler_taint = set()
         self.forwarded = 0
         self.discarded = 0
         self.names_forwarded: Set[str] = set()
@@ -401,6 +402,10 @@ class TransparencyOracle:
             self.res.probe("unjudged_after_close")
             for e in a.emissions:
                 e.meta["unjudged"] = True
+            if exp.reason == "circuit closed" and exp.parsed is not None and v is not None:
+                # whether a straggler on a torn-down circuit is forwarded at all is not judged, but when the proxy does
+                # forward it, it is still a packet of that circuit and direction: the ID laws keep applying
+                self._straggler_ids(exp, a, v)
             return
         if exp.kind == "either":
             if a.emissions:
@@ -519,6 +524,44 @@ class TransparencyOracle:
                                          body_in=pin.body_raw.hex()[:200], body_out=pout.body_raw.hex()[:200])
                 if not canonical:
                     self.res.probe("noncanonical_zero_coding")
+
+    def _straggler_ids(self, exp: Expect, a: Arrival, v):
+        """ID laws for what is forwarded on a circuit after its teardown message. Anything the oracle cannot tell apart
+        with certainty (damaged, held, rewritten or several candidate copies) taints the circuit: no further straggler
+        is judged on it, because an unnoticed proxy-originated packet would make the laws' bookkeeping incomplete."""
+        ck = exp.circuit_key
+        if ck in self.straggler_taint:
+            return
+        pin = exp.parsed
+        if not a.emissions:
+            return
+        if exp.payload in self.world.corrupted or a.meta.get("held") or exp.name in ("PacketAck", "StartPingCheck"):
+            self.straggler_taint.add(ck)
+            return
+        copies, others = [], []
+        for e in a.emissions:
+            try:
+                if e.dst == v.addr:
+                    far_e, payload_e = L.socks_unwrap(e.raw)
+                    dir_e = "in"
+                else:
+                    far_e, payload_e, dir_e = e.dst, e.raw, "out"
+                pe = L.parse_datagram(payload_e)
+            except Exception:
+                self.straggler_taint.add(ck)
+                return
+            if dir_e == exp.direction and far_e == exp.far and pe.body_plain == pin.body_plain:
+                copies.append(pe)
+            else:
+                others.append(e)
+        if len(copies) > 1:
+            self.straggler_taint.add(ck)
+            return
+        for e in others:
+            self._note_proxy_originated(e)
+        if copies:
+            self.res.probe("straggler_ids_checked")
+            self.laws.check_forward(ck, exp.direction, pin.pid, copies[0].pid)
 
     def _has_injections(self, exp: Expect) -> bool:
         ck = exp.circuit_key
